@@ -6,9 +6,9 @@ for d in /verif/seeded/*/; do
     name=$(basename "$d")
     prop=$(python3 -c "import json;print(json.load(open('$d/meta.json'))['property'])")
     out=$(/verif/tools/try_seeded.sh "$d" $prop quick 2>&1)
-    first=$(grep -ho "run index [0-9]*" /tmp/h2tsim-seeded-out/replays/*.json 2>/dev/null | awk '{print $3}' | sort -n | head -1)
-    sig=$(echo "$out" | grep -m1 "signature=" | sed 's/.*signature=//' | cut -c1-60)
-    el=$(echo "$out" | grep -o "elapsed [0-9]*s")
-    nviol=$(echo "$out" | grep -c "^VIOLATION")
+    first=$(grep -aho "run index [0-9]*" /tmp/h2tsim-seeded-out/replays/*.json 2>/dev/null | awk '{print $3}' | sort -n | head -1)
+    sig=$(echo "$out" | grep -a -m1 "signature=" | sed 's/.*signature=//' | cut -c1-60)
+    el=$(echo "$out" | grep -ao "elapsed [0-9]*s")
+    nviol=$(echo "$out" | grep -ac "^VIOLATION")
     printf "%-48s %s first_violating_run=%-6s violations_reported=%-2s %s [%s]\n" "$name" "$prop" "${first:-none}" "$nviol" "$el" "$sig"
 done
